@@ -25,6 +25,7 @@ def mask_fn(lo, hi):
         v = src.rope()
         mc = choose('mask', MASKS + [None])
         rp = {'kind': 'mask', 'args': {'n': ev(n), 'mask': mc}}
+        core.set_fallback(rp, 'C16/concretised')
         with guard('mask', 'C16/exception', rp):
             out = card.mask(v) if mc is None else card.mask(v, mc)
         mch = mc or '*'
@@ -50,6 +51,7 @@ def mask_chars(lo, hi):
 
         def rp():
             return {'kind': 'maskdigits', 'args': {'digits': concretize_str(v, ev), 'mask': mc}}
+        core.set_fallback(rp, 'C16/concretised')
         with guard('mask', 'C16/exception', rp):
             out = SymStr.of(card.mask(v, mc))
         require(len(out.cells) == n, 'masked value has a different length', key='C16/length', replay=rp)
@@ -76,6 +78,7 @@ def mask_unusual():
         digits = ''.join(str((i * 7 + 3) % 10) for i in range(n))
         v = digits[:pos] + ch + digits[pos + 1:]
         rp = {'kind': 'maskdigits', 'args': {'digits': v, 'mask': mc}}
+        core.set_fallback(rp, 'C16/concretised')
         with guard('mask', 'C16/exception', rp):
             out = card.mask(v, mc)
         ok = len(out) == n and out[:6] == v[:6] and out[n - 4:] == v[n - 4:] and out[6:n - 4] == mc * (n - 10)
@@ -98,6 +101,7 @@ def typed_processor(proc):
         if pt:
             cfgs[str(bit)]['field_python_type'] = pt
         rp = {'kind': 'typed', 'args': {'proc': proc, 'bit': bit, 'pytype': pt, 'pan': pan}}
+        core.set_fallback(rp, 'C16/concretised')
         wire = iso.dumps({'MTI': '1240', 'DE%d' % bit: pan}, iso_config=cfgs)
         try:
             d = iso.loads(wire, iso_config=cfgs)
@@ -156,6 +160,7 @@ def processor(proc, enc):
 
         def rp():
             return {'kind': 'processor', 'args': {'proc': proc, 'bit': bit, 'n': ev(n), 'other': other, 'enc': enc}}
+        core.set_fallback(rp, 'C16/concretised')
         wire = iso.dumps(dict(msg), encoding=enc, iso_config=cfgs)
         with guard('loads under a masking configuration', 'C16/exception', rp):
             d = iso.loads(wire, encoding=enc, iso_config=cfgs)
